@@ -66,6 +66,18 @@ CHECKS = {
         text="TLC proves the order conditions (1, 2, 4) of the tableaux the trace specification uses; for every recorded tracker step the scheme's stage evaluations must occur in order among the recorded velocity requests - right fractional times, stage positions X + c_k dt/dx U_{k-1} (clipped) derived from the previous stage's logged result - and moved particles must land at X + dt/dx sum b_k U_k (dy for Y).",
         note="Sheared time-dependent fields, dx/dy in {128, 256} independently. The limit statement (convergence order) follows from tableau + conformance; a numerical slope measurement is not part of the verdict yet.",
         design="6 C01"),
+    "C12": dict(
+        level="model_checking",
+        technique="TLA+ spec Vertical (Z2S lookup, rational SDepth) model-checked with TLC (MC_Vertical); trace validation of the real z2s / sdepth / s_stretch / Grid.z_r,z_w (VertTrace)",
+        text="TLC checks the lookup identity (pair exists, weight in [0,1], weighted level depth = clamped depth) for every strictly increasing integer level column and depth in the bound and the ordering/interleaving of rational s-level depths for every monotone stretching function on the staggered grid, both transforms; the real z2s is validated exactly on enumerated integer columns, the real sdepth exactly on rational inputs, and s_stretch curves / Grid level depths / lookups on real levels are recorded over a parameter lattice and their invariants evaluated by TLC with interval semantics.",
+        note="Transcendental stretching curves are sampled on a parameter lattice (not exhaustive in parameter space). hc <= h. Lookup needs N >= 2 (N = 1: see C17).",
+        design="6 C12"),
+    "C16": dict(
+        level="model_checking",
+        technique="TLA+ spec Geo (sample2D, bilinear lon/lat) model-checked with TLC (MC_Geo); trace validation of the real sample2D, Grid.xy2ll/ll2xy, lon/lat release and lon/lat output (GeoTrace)",
+        text="TLC checks exactness on bilinear fields, convexity, masked nodes ignored and the outside rule for every small field/mask/position in the bound; the real sample2D is validated exactly on random integer fields/masks/positions (incl. outside with substitute 0, undefined values), xy2ll exactly on lattice probes of curved coordinate tables for random sub-rectangles, the ll2xy round trip and releases given by lon/lat through their post-condition (interpolated lon/lat at the resulting position equal the given ones within the solver tolerance), and lon/lat written with a record (sparse and dense) as the bilinear value at X, Y of the same record.",
+        note="Newton convergence itself is not modelled; every recorded inversion is checked through its residual. Coordinate tables on a 2^-10 degree lattice.",
+        design="6 C16"),
 }
 
 NOT_YET = {}
